@@ -165,7 +165,27 @@ DurSpell == { <<Du(FALSE, 1, 0, 0), {"P1D", "P1DT0S", "P1DT0H0M0S", "PT24H", "P1
               <<Du(FALSE, 0, 0, 0), {"P0D", "PT0S", "P0DT0S", "P0DT0H0M0S", "PT0H0M0S", "PT0.0S", "P0DT0H0M0.0S"}>>,
               <<Du(FALSE, 0, 3661, 0), {"PT1H1M1S", "P0DT1H1M1S", "PT3661S", "PT1H1M1.0S", "P0DT1H1M1.0S"}>>,
               <<Du(FALSE, 400, 0, 0), {"P400D", "P400DT0S", "P400DT0H0M0S", "P400DT0H0M0.0S"}>> }
+\* ... and a grid of values with the spellings COMPUTED: sign, days, time part in full / compact / total-seconds form,
+\* each with every accepted fraction text (days with only a fraction of a second, negative values, 86399 s, ...)
+GDays == {0, 1, 2, 400}
+GSecs == {0, 1, 59, 3661, 86399}
+GUs   == {0, 5, 500000, 999999, 123000}
+Hh(x) == x \div 3600
+Mm(x) == (x % 3600) \div 60
+Ss(x) == x % 60
+FracsOf(us) == FracOut(us) \cup (IF us = 0 THEN {".0"} ELSE {})
+TimeForms(secs, us) ==
+  UNION {{ "T" \o ToString(Hh(secs)) \o "H" \o ToString(Mm(secs)) \o "M" \o ToString(Ss(secs)) \o f \o "S",
+           "T" \o ToString(secs) \o f \o "S",
+           "T" \o (IF Hh(secs) > 0 THEN ToString(Hh(secs)) \o "H" ELSE "") \o (IF Mm(secs) > 0 THEN ToString(Mm(secs)) \o "M" ELSE "")
+               \o (IF Ss(secs) > 0 \/ us > 0 \/ secs = 0 THEN ToString(Ss(secs)) \o f \o "S" ELSE "") } : f \in FracsOf(us)}
+DayForms(days, timed) == {"P" \o ToString(days) \o "D"} \cup (IF days = 0 /\ timed THEN {"P"} ELSE {})
+GridLits(du) == LET sign == IF du.neg THEN "-" ELSE ""
+                    timed == {sign \o d \o t : d \in DayForms(du.days, TRUE), t \in TimeForms(du.secs, du.us)}
+                IN timed \cup (IF du.secs = 0 /\ du.us = 0 THEN {sign \o "P" \o ToString(du.days) \o "D"} ELSE {})
+DurGrid == {Du(n, d, sc, us) : n \in BOOLEAN, d \in GDays, sc \in GSecs, us \in GUs} \ {Du(TRUE, 0, 0, 0)}
 DurOutRows == {[t |-> "Duration", cust |-> "", val |-> p[1], lits |-> p[2], form |-> ""] : p \in DurSpell}
+              \cup {[t |-> "Duration", cust |-> "", val |-> du, lits |-> GridLits(du), form |-> ""] : du \in DurGrid}
 
 \* ------------------------------------------------------ uuid, binary, text
 UuidInRows == {[t |-> "Uuid", cust |-> "", lit |-> l, val |-> [hex |-> "12345678123412341234123456789abc"]] :
@@ -182,6 +202,10 @@ Bin == { [b |-> <<0>>, b64 |-> "AA==", url |-> "AA==", hex |-> "00"],
 BinInRows == UNION {{[t |-> "ByteArray", cust |-> "base64", lit |-> x.b64, val |-> [b |-> x.b]],
                      [t |-> "ByteArray", cust |-> "urlsafe_base64", lit |-> x.url, val |-> [b |-> x.b]],
                      [t |-> "ByteArray", cust |-> "hex", lit |-> x.hex, val |-> [b |-> x.b]]} : x \in Bin}
+\* xs:base64Binary allows white space between and around the groups of four (RFC 2045 line breaks)
+BinWsInRows == { [t |-> "ByteArray", cust |-> "base64", lit |-> "//79\n/A==", val |-> [b |-> <<255, 254, 253, 252>>]],
+                 [t |-> "ByteArray", cust |-> "base64", lit |-> " SGVs bG8= ", val |-> [b |-> <<72, 101, 108, 108, 111>>]],
+                 [t |-> "ByteArray", cust |-> "base64", lit |-> "AAEC\r\n", val |-> [b |-> <<0, 1, 2>>]] }
 \* form: one chunk, or the same bytes handed over as two chunks (2 + rest)
 BinOutRows == UNION {{[t |-> "ByteArray", cust |-> "base64", val |-> [b |-> x.b], lits |-> {x.b64}, form |-> fm],
                       [t |-> "ByteArray", cust |-> "urlsafe_base64", val |-> [b |-> x.b], lits |-> {x.url}, form |-> fm],
@@ -194,7 +218,7 @@ TextInRows  == UNION {{[t |-> ty, cust |-> "", lit |-> x, val |-> [id |-> x]] : 
 TextOutRows == UNION {{[t |-> ty, cust |-> "", val |-> [id |-> x], lits |-> {x}, form |-> "textid"] : x \in TextsOf(ty)} : ty \in {"Unicode", "AnyUri"}}
 
 InRows  == IntInRows \cup DecInRows \cup DblInRows \cup BoolInRows \cup DtInRows \cup DtCustInRows \cup DateInRows
-           \cup TimeInRows \cup DurInRows \cup UuidInRows \cup BinInRows \cup TextInRows
+           \cup TimeInRows \cup DurInRows \cup UuidInRows \cup BinInRows \cup BinWsInRows \cup TextInRows
 OutRows == IntOutRows \cup DecOutRows \cup DblOutRows \cup BoolOutRows \cup DtOutRows \cup DtCustOutRows \cup DateOutRows
            \cup TimeOutRows \cup DurOutRows \cup UuidOutRows \cup BinOutRows \cup TextOutRows
 
